@@ -90,7 +90,7 @@ def c_state_corr(ctx, args):
 
 
 CHECKS = {'rot_corr': c_rot_corr, 'rot_dense': c_rot_dense, 'seq_corr': c_seq_corr, 'map_corr': c_map_corr,
-          'map_acts': c_map_acts, 'state_corr': c_state_corr}
+          'map_acts': c_map_acts, 'state_corr': c_state_corr, 'ctor_fresh': __import__('props.C17', fromlist=['c_ctor_fresh']).c_ctor_fresh}
 
 
 def run(ctx):
@@ -148,3 +148,7 @@ def run(ctx):
         t = gen.rtableau(rng, ctx.model, N)
         be = rng.choice(backends)
         do(ctx, 'state_corr', [be, gen.rpauli(rng, n, herm=True), mask, t], nontrivial=(be, 's', str(t)))
+    # clifford_rotation_map must hand out a fresh table every time (its users rotate / transform maps in place)
+    for be in ('np', 'torch'):
+        for _ in range(max(6, int(6 * B))):
+            do(ctx, 'ctor_fresh', [be, 'rotation_map', rng.randint(1, 4), rng.randrange(10 ** 6)], nontrivial=('cf', be, ctx.res.evaluations))
